@@ -100,3 +100,99 @@ func c15TwoTemplates(thorough bool) []c15TwoTmpl {
 	}
 	return out
 }
+
+// Three parties and the bus-wide lock. withNode / tryDropNode take the bus lock and then wait for a node lock, and a
+// node lock is held for as long as an emit waits for a slow consumer. Scenario: a consumer reads one event of type A,
+// then touches the bus (closes its subscription to an unrelated type B, asks for the event types, makes an emitter)
+// before it reads on; meanwhile an emitter emits A and a newcomer subscribes to A and leaves again. Oracle as above:
+// every thread finishes.
+type c15BusTmpl struct {
+	Name  string
+	Op    string // what the consumer does between two reads: "close-other", "event-types", "new-emitter"
+	Emits int
+}
+
+func c15BusBody(tp c15BusTmpl) func(x *vs.Exec) {
+	return func(x *vs.Exec) {
+		s := x.S
+		bus := NewBus()
+		em, err := bus.Emitter(new(c15EvA))
+		if err != nil {
+			panic(err)
+		}
+		subscribed := make(chan struct{})
+		s.Go("consumer", func() {
+			sa, err := bus.Subscribe(new(c15EvA), BufSize(0))
+			if err != nil {
+				panic(err)
+			}
+			sb, err := bus.Subscribe(new(c15EvB), BufSize(0))
+			if err != nil {
+				panic(err)
+			}
+			vs.Close(subscribed)
+			vs.Recv2(-9, sa.Out())
+			switch tp.Op {
+			case "close-other":
+				sb.Close()
+			case "event-types":
+				bus.GetAllEventTypes()
+			case "new-emitter":
+				e2, err := bus.Emitter(new(c15EvB))
+				if err != nil {
+					panic(err)
+				}
+				e2.Close()
+			}
+			for i := 1; i < tp.Emits; i++ {
+				vs.Recv2(-9, sa.Out())
+			}
+			sa.Close()
+			sb.Close()
+		})
+		s.Go("emitter", func() {
+			vs.Recv(-9, subscribed)
+			for n := 1; n <= tp.Emits; n++ {
+				em.Emit(c15EvA{0, n})
+			}
+			em.Close()
+		})
+		s.Go("newcomer", func() {
+			vs.Recv(-9, subscribed)
+			sub, err := bus.Subscribe(new(c15EvA), BufSize(4))
+			if err != nil {
+				panic(err)
+			}
+			sub.Close()
+		})
+		ok := s.Run()
+		if !ok && s.Deadlock != "" {
+			x.Fail("deadlock", "a consumer touches the bus (%s) between two reads while an emitter emits and a newcomer subscribes: threads blocked forever: %s", tp.Op, s.Deadlock)
+		}
+		x.Outcome = fmt.Sprintf("finished=%v", ok)
+		s.Drain()
+	}
+}
+
+// c15Extra: the scenarios of this file under one roof (name + body).
+type c15Extra struct {
+	Name string
+	Body func(x *vs.Exec)
+}
+
+func c15ExtraScenarios(thorough bool) []c15Extra {
+	var out []c15Extra
+	for _, tp := range c15TwoTemplates(thorough) {
+		out = append(out, c15Extra{tp.Name, c15TwoBody(tp)})
+	}
+	bus := []c15BusTmpl{{Name: "consumer closes its subscription to another type between two reads, newcomer subscribes, emit2", Op: "close-other", Emits: 2}}
+	if thorough {
+		bus = append(bus,
+			c15BusTmpl{Name: "consumer lists the event types between two reads, newcomer subscribes, emit2", Op: "event-types", Emits: 2},
+			c15BusTmpl{Name: "consumer makes an emitter between two reads, newcomer subscribes, emit2", Op: "new-emitter", Emits: 2})
+	}
+	for _, tp := range bus {
+		out = append(out, c15Extra{tp.Name, c15BusBody(tp)})
+	}
+	return out
+}
